@@ -87,6 +87,48 @@ func mkLadder(kind string, n int) ladder {
 		}
 		l.cfg[name("a", n)] = ref(name("a", n))
 		l.read, l.fails, l.cyclic = "a0", true, true
+	case "same-variable-twice-above-one-absorbed-cycle":
+		// the bottom refers to itself, its default operator absorbs that
+		for i := 0; i < n; i++ {
+			l.cfg[name("s", i)] = ref(name("s", i+1)) + ref(name("s", i+1))
+		}
+		l.refs++
+		l.cfg[name("s", n)] = "${" + name("s", n) + ":}"
+		l.read = "s0"
+	case "two-rail-diamonds-above-one-absorbed-cycle":
+		for i := 0; i < n; i++ {
+			l.cfg[name("s", i)] = ref(name("s", i+1)) + ref(name("t", i+1))
+			l.cfg[name("t", i)] = ref(name("t", i+1)) + ref(name("s", i+1))
+		}
+		l.refs += 2
+		l.cfg[name("s", n)] = "${" + name("t", n) + ":}"
+		l.cfg[name("t", n)] = "${" + name("s", n) + ":+}"
+		l.read = "s0"
+	case "chain-of-element-0-paths-ending-in-a-value":
+		// element 0 of a value that is no list is the value
+		for i := 0; i < n; i++ {
+			l.cfg[name("a", i)] = ref(name("a", i+1) + ".0")
+		}
+		l.cfg[name("a", n)] = "va"
+		l.read, l.want = "a0", "va"
+	case "chain-of-element-0-paths-ending-in-a-list":
+		for i := 0; i < n; i++ {
+			l.cfg[name("a", i)] = ref(name("a", i+1) + ".0")
+		}
+		l.cfg[name("a", n)] = []interface{}{"va", "vb"}
+		l.read, l.want = "a0", "va"
+	case "chain-of-element-0-paths-ending-in-nothing":
+		for i := 0; i < n; i++ {
+			l.cfg[name("a", i)] = ref(name("a", i+1) + ".0")
+		}
+		l.cfg[name("a", n)] = ref("zz")
+		l.read, l.fails = "a0", true
+	case "chain-of-element-0-paths-ending-in-a-cycle":
+		for i := 0; i < n; i++ {
+			l.cfg[name("a", i)] = ref(name("a", i+1) + ".0")
+		}
+		l.cfg[name("a", n)] = ref(name("a", n))
+		l.read, l.fails, l.cyclic = "a0", true, true
 	case "failing-chain-of-paths-ending-in-nothing":
 		for i := 0; i < n; i++ {
 			l.cfg[name("a", i)] = ref(name("a", i+1) + ".x")
@@ -101,6 +143,25 @@ var ladderKinds = []string{
 	"same-variable-twice", "same-variable-three-times-with-operators", "two-rail-diamonds",
 	"diamonds-through-object-members", "chain-of-aliases-read-through-a-path",
 	"failing-chain-of-paths-ending-in-a-cycle", "failing-chain-of-paths-ending-in-nothing",
+	"same-variable-twice-above-one-absorbed-cycle", "two-rail-diamonds-above-one-absorbed-cycle",
+	"chain-of-element-0-paths-ending-in-a-value", "chain-of-element-0-paths-ending-in-a-list",
+	"chain-of-element-0-paths-ending-in-nothing", "chain-of-element-0-paths-ending-in-a-cycle",
+}
+
+// ladderFamily: the input class a ladder kind belongs to (part of the
+// signatures of broken bounds).
+func ladderFamily(kind string) string {
+	switch {
+	case strings.HasPrefix(kind, "chain-of-element-0-paths"):
+		return "chain-of-element-0-paths"
+	case strings.HasSuffix(kind, "above-one-absorbed-cycle"):
+		return "diamonds-above-an-absorbed-cycle"
+	case strings.HasPrefix(kind, "failing-chain"):
+		return "failing-chain-of-paths"
+	case kind == "chain-of-aliases-read-through-a-path":
+		return "chain-of-aliases"
+	}
+	return "repeated-uses-and-diamonds"
 }
 
 func runLadder(res *harness.R, r *rand.Rand, verbose bool) {
@@ -187,10 +248,10 @@ func runLadder(res *harness.R, r *rand.Rand, verbose bool) {
 			what := fmt.Sprintf("%s of %q", rd.what, l.read)
 			switch {
 			case over:
-				res.Violate("ladder:resolutions-exceed-linear-bound", "%s performed more than %d reference resolutions (bound: 64 per reference written + 64); %s", what, bound, desc)
+				res.Violate("ladder:resolutions-exceed-linear-bound:"+ladderFamily(kind), "%s performed more than %d reference resolutions (bound: 64 per reference written + 64); %s", what, bound, desc)
 				return
 			case maxDeps > l.refs:
-				res.Violate("ladder:dependency-list-longer-than-references", "%s: a dependency list of %d entries, the configuration has %d references; %s", what, maxDeps, l.refs, desc)
+				res.Violate("ladder:dependency-list-longer-than-references:"+ladderFamily(kind), "%s: a dependency list of %d entries, the configuration has %d references; %s", what, maxDeps, l.refs, desc)
 				return
 			case l.fails && rerr == nil:
 				res.Violate("ladder:failing-read-succeeds", "%s succeeded, the chain ends in a failing reference; %s", what, desc)
@@ -224,7 +285,7 @@ func runLadder(res *harness.R, r *rand.Rand, verbose bool) {
 		// degree 4 grows by less than x4 from 8 to 12 levels) and a volume that
 		// no linear number of evaluations explains
 		if prevBytes > 0 && n >= 10 && worst > 8*prevBytes && worst > 4<<20 {
-			res.Violate("ladder:work-grows-exponentially", "the most expensive read allocated %d bytes with %d levels, more than 8 times the %d bytes of the ladder 4 levels lower; %s", worst, n, prevBytes, desc)
+			res.Violate("ladder:work-grows-exponentially:"+ladderFamily(kind), "the most expensive read allocated %d bytes with %d levels, more than 8 times the %d bytes of the ladder 4 levels lower; %s", worst, n, prevBytes, desc)
 			return
 		}
 		prevBytes = worst
